@@ -152,6 +152,16 @@ CHECKS = {
             "values stay distinct in all 24 orders.",
             "requests address top-level assignments, META fields and fresh keys; deleted nodes carry no comments; documents have no empty containers",
             "DESIGN.md §3 C18"),
+    "C16": ("fault_enumeration",
+            "enumeration of every file-operation boundary x {kill, torn write, 5 errnos} via in-process interposition in forked children; before/after state oracle",
+            "For 36 (thorough: 60+) scenarios of octave_write, atomic_write_octave and CLI write, the fault-free run is traced and "
+            "every boundary is then hit with a kill, a torn write and five injected errnos (thorough: all ordered pairs for two "
+            "errnos); the supervising process checks that the target holds old or complete new bytes after a kill, is untouched "
+            "with no temp file left after a returned error, matches canonical_hash and keeps its permission bits after success, "
+            "and that fsync precedes replace. Exhaustive over the traced boundaries of the listed scenarios.",
+            "faults are injected at Python file-operation granularity by patching os/io/builtins (pathlib and tempfile resolve "
+            "them at call time); the kernel's own atomicity of rename is assumed",
+            "DESIGN.md §3 C16"),
 }
 
 NOT_YET = {
